@@ -627,6 +627,18 @@ pub fn terms_oracle(c: &TermsCase) -> Verdict {
                 Ok(b) => b,
                 Err(e) => vfail!("map-to-proplist-error", "{e:?}"),
             };
+            // a bare atom is the entry {atom, true} (that is what normalize_proplist and to_map_recursive make of it):
+            // converting the proplist and converting its normal form must give the same map, duplicates or not
+            match norm.proplist_to_map() {
+                Ok(m2) if denote(&m2).same(&denote(&m)) => {}
+                other => vfail!(
+                    "proplist-to-map-differs-from-normal-form",
+                    "proplist_to_map of {} gives {} but of its normal form {:?}",
+                    denote(&p).render(),
+                    denote(&m).render(),
+                    other.map(|t| denote(&t).render())
+                ),
+            }
             let pairs = |t: &OwnedTerm| -> Vec<(Value, Value)> {
                 match denote(t) {
                     Value::List { elems, .. } => elems
@@ -694,6 +706,8 @@ fn terms_strategy() -> impl Strategy<Value = TermsCase> {
     let cfg = GenCfg { depth: 3, size: 10, heavy: false, ..GenCfg::std() };
     let strs = prop_oneof![
         3 => "[a-z_]{1,8}".prop_map(|s| s),
+        // a two-letter alphabet: duplicate keys are the rule
+        2 => "[ab]".prop_map(|s| s),
         1 => "[A-Z][a-zA-Z.]{0,10}".prop_map(|s| s),
         1 => prop::sample::select(vec!["", "nil", "true", "message", "héllo", "日本", "Elixir.Foo", "a b", "key"]).prop_map(|s| s.to_string()),
     ];
